@@ -240,28 +240,28 @@ Proof.
 Qed.
 
 (* ------------------------------------------------- seeded random patterns *)
-(* Prand with r draws on one generator: r items, each chosen by the next draw (the history
-   grows by one call per item), each embedded in place *)
-Fixpoint rand_out (d : pat -> trace) (l : list pat) (z : Z) (r : nat) (h : hist) : list val :=
+(* Prand / Pwrand with r draws on one generator: r items, each chosen by the next draw (the
+   history grows by one call (a, b) per item), each embedded in place *)
+Fixpoint rand_out (d : pat -> trace) (a b : Z) (l : list pat) (z : Z) (r : nat) (h : hist) : list val :=
   match r with
   | O => []
-  | S r' => match rand_item rnd l z h with
-            | Some q => fst (d q) ++ rand_out d l z r' ((0, Z.of_nat (length l))%Z :: h)
+  | S r' => match rand_item rnd a b l z h with
+            | Some q => fst (d q) ++ rand_out d a b l z r' ((a, b) :: h)
             | None => [] end
   end.
-Fixpoint rand_ok (l : list pat) (z : Z) (r : nat) (h : hist) : Prop :=
+Fixpoint rand_ok (a b : Z) (l : list pat) (z : Z) (r : nat) (h : hist) : Prop :=
   match r with
   | O => True
-  | S r' => rand_item rnd l z h <> None /\ rand_ok l z r' ((0, Z.of_nat (length l))%Z :: h)
+  | S r' => rand_item rnd a b l z h <> None /\ rand_ok a b l z r' ((a, b) :: h)
   end.
-Lemma trand_draws (d : pat -> trace) l z K : (forall q, In q l -> snd (d q) = EStop) ->
-  forall r count h, (r < count)%nat -> rand_ok l z r h ->
-  trand rnd d l z (Some r) h count K = tpre (rand_out d l z r h) K.
+Lemma trand_draws (d : pat -> trace) a b l z K : (forall q, In q l -> snd (d q) = EStop) ->
+  forall r count h, (r < count)%nat -> rand_ok a b l z r h ->
+  trand rnd d a b l z (Some r) h count K = tpre (rand_out d a b l z r h) K.
 Proof.
   intros Hc. induction r as [|r IH]; intros count h Hcnt Hok.
   - destruct count; [lia|]. cbn. destruct K; reflexivity.
   - destruct count as [|c]; [lia|]. cbn [trand cnt_zero cnt_dec pred rand_out]. destruct Hok as [H0 Hok].
-    destruct (rand_item rnd l z h) as [q|] eqn:E; [|congruence].
+    destruct (rand_item rnd a b l z h) as [q|] eqn:E; [|congruence].
     rewrite IH by (try lia; exact Hok).
     assert (Hq : In q l).
     { unfold rand_item in E. destruct (_ && _)%bool; [|discriminate]. eapply nth_error_In; eauto. }
@@ -392,8 +392,16 @@ Proof.
   destruct lst; [congruence|discriminate]. rewrite map_length. exact H2.
 Qed.
 Lemma pseed_prand_l k m sd l sv z (r : nat) : den k Str sd = ([sv], EStop) -> as_index sv = Some z -> l <> [] ->
-  (forall q, In q l -> snd (den k Emb q) = EStop) -> (r < k)%nat -> rand_ok l z r [] ->
-  den (S k) m (PseedRand sd l (Fin (Z.of_nat r))) = (rand_out (den k Emb) l z r [], EStop).
+  (forall q, In q l -> snd (den k Emb q) = EStop) -> (r < k)%nat -> rand_ok 0 (Z.of_nat (length l)) l z r [] ->
+  den (S k) m (PseedRand sd l (Fin (Z.of_nat r))) = (rand_out (den k Emb) 0 (Z.of_nat (length l)) l z r [], EStop).
+Proof.
+  intros H Hz Hne Hc Hr Hok. cbn [Pattern.den]. rewrite H. cbn [fst snd tseed]. rewrite Hz.
+  destruct l as [|q0 l']; [congruence|]. cbn [cnt_of]. rewrite Nat2Z.id.
+  rewrite trand_draws; try assumption. unfold tpre. cbn [fst snd]. rewrite app_nil_r. reflexivity.
+Qed.
+Lemma pseed_pwrand_l k m sd l nw sv z (r : nat) : den k Str sd = ([sv], EStop) -> as_index sv = Some z -> l <> [] ->
+  (forall q, In q l -> snd (den k Emb q) = EStop) -> (r < k)%nat -> rand_ok (-1) (Z.of_nat nw) l z r [] ->
+  den (S k) m (PseedWrand sd l nw (Fin (Z.of_nat r))) = (rand_out (den k Emb) (-1) (Z.of_nat nw) l z r [], EStop).
 Proof.
   intros H Hz Hne Hc Hr Hok. cbn [Pattern.den]. rewrite H. cbn [fst snd tseed]. rewrite Hz.
   destruct l as [|q0 l']; [congruence|]. cbn [cnt_of]. rewrite Nat2Z.id.
